@@ -107,7 +107,11 @@ Senders == <<
     [cl |-> "S6", addr |-> S6, cid |-> "",      qt |-> <<"AFSDB", "SSHFP", "SMIMEA">>],
     [cl |-> "M4", addr |-> M4, cid |-> "",      qt |-> <<"TLSA", "URI", "EUI48">>],
     [cl |-> "C1", addr |-> X4, cid |-> "cliz1", qt |-> <<"CERT", "SPF", "EUI64">>],
-    [cl |-> "C2", addr |-> X4, cid |-> "cliz2", qt |-> <<"KX", "DNAME", "CSYNC">>] >>
+    [cl |-> "C2", addr |-> X4, cid |-> "cliz2", qt |-> <<"KX", "DNAME", "CSYNC">>],
+    \* The same unconfigured ClientID as C2, but from the target client's
+    \* address: a ClientID that is no persistent client does not stop the sender
+    \* from being the client its address says it is.
+    [cl |-> "C3", addr |-> T4, cid |-> "cliz2", qt |-> <<"HIP", "NID", "L32">>] >>
 
 \* A query is identified by <<name index, sender index, round>>; round 4 is
 \* the ANY probe, sent by T4 together with round 1.
